@@ -78,6 +78,23 @@ def step (_ : Unit) (line : String) : Unit × String :=
           | none => "none"
         s!"ok {showMap m} q={qv} ## {v}"
       | none => "bad-op"
+    | ["collect", ps] =>
+      -- pairs `k=v,k=v,…` (hex fields) in iteration order, collected with FromIterator
+      let fields := (ps.splitOn ",").mapM fun kv =>
+        match kv.splitOn "=" with
+        | [k, v] => do
+          let k ← bytesOfHex k
+          let v ← bytesOfHex v
+          pure (k, v)
+        | _ => none
+      match fields with
+      | some pairs =>
+        let m := PMap.collect pairs
+        -- spec: keys in first-appearance order, each with all its once-decoded values in order
+        let spec := specMap (pairs.map fun kv => (kv.1, utf8Lossy (pctDecode kv.2)))
+        let v := if m == spec then "ok" else "fail collect"
+        s!"ok {showMap m} ## {v}"
+      | none => "bad-op"
     | ["roundtrip", ms] =>
       match parseMap ms with
       | some m =>
